@@ -186,7 +186,7 @@ def make(recipe, shape, dtype=np.float64):
     return np.ascontiguousarray(a, dtype=dtype)
 
 
-def recipe_strategy(kinds=None, scales=(0, 0, 0, 0, 3, -3, 6, -6)):
+def recipe_strategy(kinds=None, scales=(0, 0, 0, 0, 0, 0, 3, -3, 6, -6, -10, -18, 10)):
     from hypothesis import strategies as st
     return st.fixed_dictionaries({
         'kind': st.sampled_from(kinds or RECIPE_KINDS),
